@@ -121,6 +121,12 @@ func fabricate(kind string, r *sim.Request) *sim.Fault {
 		return &sim.Fault{Code: 422, Reason: "Invalid"}
 	case "500":
 		return &sim.Fault{Code: 500, Reason: "InternalError"}
+	case "403":
+		return &sim.Fault{Code: 403, Reason: "Forbidden"}
+	case "429":
+		return &sim.Fault{Code: 429, Reason: "TooManyRequests"}
+	case "server-timeout":
+		return &sim.Fault{Code: 504, Reason: "Timeout"}
 	case "timeout":
 		return &sim.Fault{Transport: true}
 	case "lost-response":
@@ -245,7 +251,7 @@ func TestVerifC12(t *testing.T) {
 		})
 	}
 	for i, q := range log {
-		for _, kind := range []string{"404", "409", "410", "422", "500", "timeout", "lost-response"} {
+		for _, kind := range []string{"404", "409", "410", "422", "500", "403", "429", "server-timeout", "timeout", "lost-response"} {
 			if (kind == "lost-response" || kind == "409" || kind == "422" || kind == "410") && !q.Mutating() {
 				continue
 			}
